@@ -64,6 +64,35 @@ where
     }
 }
 
+/// Waits for the outcome of a delivery on the control link, or for the control link to stop if
+/// that happens first (the coordinator detaches it, with or without closing it): a discharge or
+/// declare that can no longer be answered must not wait for ever, and the error the coordinator
+/// gave is what the caller gets.
+async fn outcome_on_control_link(
+    inner: &mut SenderInner<ControlLink>,
+    outcome: oneshot::Receiver<Option<DeliveryState>>,
+) -> Result<Option<DeliveryState>, ControllerSendError> {
+    tokio::select! {
+        biased;
+
+        result = outcome => match result {
+            Ok(state) => return Ok(state),
+            Err(_) => {
+                // The settlement channel died. Either the session stopped, or the remote peer
+                // closed the link and the detach that tells why is already in the channel
+                if let Some(reason) = inner.link.session_stop_reason.get() {
+                    return Err(LinkStateError::SessionStopped(reason.clone()).into());
+                }
+            }
+        },
+        frame = inner.incoming.recv() => {
+            return Err(inner.link.on_detached(&inner.outgoing, frame).await.into())
+        }
+    }
+    let frame = inner.incoming.recv().await;
+    Err(inner.link.on_detached(&inner.outgoing, frame).await.into())
+}
+
 /// Send a declare message on the control link to obtain a transaction identifier.
 pub(crate) async fn declare_on_link(
     inner: &mut SenderInner<ControlLink>,
@@ -79,13 +108,9 @@ pub(crate) async fn declare_on_link(
     // the outcome of the declare from the receiver
     let sendable = Sendable::builder().message(message).settled(false).build();
 
-    send_on_control_link(inner, sendable)
+    let outcome = send_on_control_link(inner, sendable).await?;
+    outcome_on_control_link(inner, outcome)
         .await?
-        .await
-        .map_err(|_| match inner.link.session_stop_reason.get() {
-            Some(reason) => LinkStateError::SessionStopped(reason.clone()),
-            None => LinkStateError::IllegalState, // defensive: no stop reason recorded; failure is link-local
-        })?
         .ok_or(ControllerSendError::NonTerminalDeliveryState)?
         .declared_or_else(|state| {
             if let DeliveryState::Rejected(rejected) = state {
@@ -110,13 +135,9 @@ pub(crate) async fn discharge_on_link(
     let message = Message::builder().value(discharge).build();
     let sendable = Sendable::builder().message(message).settled(false).build();
 
-    send_on_control_link(inner, sendable)
+    let outcome = send_on_control_link(inner, sendable).await?;
+    outcome_on_control_link(inner, outcome)
         .await?
-        .await
-        .map_err(|_| match inner.link.session_stop_reason.get() {
-            Some(reason) => LinkStateError::SessionStopped(reason.clone()),
-            None => LinkStateError::IllegalState, // defensive: no stop reason recorded; failure is link-local
-        })?
         .ok_or(ControllerSendError::NonTerminalDeliveryState)?
         .accepted_or_else(|state| {
             if let DeliveryState::Rejected(rejected) = state {
